@@ -138,10 +138,21 @@ theorem proposal_reward_eq_sum (w : Win) (r : Ratio) (chain : List Blk) (P t v :
     (h : proposalReward w r chain P t = some v) : v = paidSum r (paidList w chain P t) := by
   have := sumShares_some h; omega
 
+/- Full statement aimed at (DESIGN.md `proposal_reward_eq_spec`), NOT proved here:
+   for `t ≥ 2`, on a chain that commits each id at most once,
+     paidList w chain (t + w.far) t  =  the commits `(c, id, fee)` with `c ∈ [t + w.close, t + w.far]`,
+       `id ∈ props t` and `t = min {q ∈ [max (c − w.far) 1, c − w.close] | id ∈ props q}`
+   (as multisets), hence `proposal_reward = Σ ⌊fee·r⌋` over them.
+   Proved below: the *soundness* half (everything the walk pays is such a commit, with "earliest"
+   in the code's sense) and `proposer_share_paid_at_most_once`. Missing: the *completeness* half
+   (every such commit is paid) — checked only by the chain correspondence oracle
+   (`reward-proposal`), which also exposed that it is false for `t = 1`
+   (`block1_proposer_share_unpaid_witness`). -/
+
 /-- every fee whose proposer share goes to target `t` (finalised on top of parent `P`) belongs to
 a transaction committed in a block `c ≤ P` whose id `t` proposed (itself or an uncle), and no
 block the walk treats as an earlier proposer (`max (i − w_far) 1` for `c ≤ i < P`) proposed it -/
-theorem paid_only_to_earliest_proposer (w : Win) (chain : List Blk) (P t : Nat) (e : Paid)
+theorem proposal_reward_eq_spec_partial (w : Win) (chain : List Blk) (P t : Nat) (e : Paid)
     (he : e ∈ paidList w chain P t) :
     e.id ∈ (blkAt chain t).props ∧ e.blk ≤ P ∧
     (e.id, e.fee) ∈ (blkAt chain e.blk).commitIds.zip (blkAt chain e.blk).fees ∧
@@ -263,6 +274,24 @@ theorem u_tracks_live_occupied (p d : DaoField) (g g2 added freed interests live
     (hp : p.u = live) (hl : live' + freed = live + added) : d.u = live' := by
   obtain ⟨_, _, hu, _⟩ := dao_field_eq_rule p d g g2 added freed interests h
   omega
+
+/-- along any chain segment whose headers obey the rule: `C` grows by exactly the scheduled
+issuance (no other minting into `C`), `U` changes by exactly the occupied capacity created minus
+consumed (so `U = Σ occupied(live set)` is an invariant of the replay: with
+`live_tip + Σ freed = live_0 + Σ added` and `U_0 = live_0` one gets `U_tip = live_tip`),
+AR never decreases, and `S` never exceeds what secondary issuance put in minus the interest paid out.
+(`U_eq_occupied_of_live_set` of DESIGN.md in accumulated form; the live set itself is C02's replay
+and is an input here.) -/
+theorem dao_accounts_over_chain (p d : DaoField) (bs : List BlockTotals)
+    (h : daoChain p bs = .ok d) :
+    d.c = p.c + sumOf (fun b => b.primary + b.g2) bs ∧
+    d.u + sumOf (·.freed) bs = p.u + sumOf (·.added) bs ∧
+    p.ar ≤ d.ar ∧
+    d.s + sumOf (·.interests) bs ≤ p.s + sumOf (·.g2) bs := daoChain_ok h
+
+example : (daoChain ⟨10000000000123456, 500000000123000, 400000000123, 600000000000⟩
+    [⟨50000000000, 29349527985, 500000000, 0, 0⟩, ⟨50000000000, 29349527985, 0, 500000000, 7⟩]).toOption =
+    some ⟨10001173922552838, 500158699178970, 458628593463, 600000000000⟩ := by decide
 
 /-- `secondary_block_reward` is `⌊g2·U_parent/C_parent⌋` of the target's secondary issuance
 (0 for the genesis block) -/
